@@ -174,8 +174,8 @@ Fixpoint nodupb (l : list N) : bool :=
 Definition valid_flags (l : list N) : bool :=
   forallb (fun c => existsb (N.eqb c) supported_flags) l && nodupb l.
 
-(* I: the loop of compileRegexp on this tree.  [None] = SyntaxError.  In the 'u' arm the
-   error is recorded but the loop goes on and the error is later overwritten (finding F15). *)
+(* I: the loop of compileRegexp on this tree.  [None] = SyntaxError.  (Since commit a2c2456 the
+   'u' arm returns like the others; before, a repeated u was accepted: F15, fixed.) *)
 Fixpoint goja_flags_loop (l : list N) (f : flags) : option flags :=
   match l with
   | [] => Some f
@@ -185,7 +185,7 @@ Fixpoint goja_flags_loop (l : list N) (f : flags) : option flags :=
       else if N.eqb c ch_s then if fs f then None else goja_flags_loop t (mkFlags (fg f) (fi f) (fm f) true (fu f) (fy f))
       else if N.eqb c ch_i then if fi f then None else goja_flags_loop t (mkFlags (fg f) true (fm f) (fs f) (fu f) (fy f))
       else if N.eqb c ch_y then if fy f then None else goja_flags_loop t (mkFlags (fg f) (fi f) (fm f) (fs f) (fu f) true)
-      else if N.eqb c ch_u then goja_flags_loop t (mkFlags (fg f) (fi f) (fm f) (fs f) true (fy f))
+      else if N.eqb c ch_u then if fu f then None else goja_flags_loop t (mkFlags (fg f) (fi f) (fm f) (fs f) true (fy f))
       else None
   end.
 Definition no_flags := mkFlags false false false false false false.
